@@ -384,3 +384,55 @@ func (x *Exec) selectStmt(st *State, v *ssa.Select) []*State {
 	mk(st, 0)
 	return forks
 }
+
+// lockProtocol implements `lock_protocol m guards v [label] expr` for mutexes that are local variables (possibly captured
+// by the closure under verification). Acquire: other threads may have changed v's contents while the lock was free - the
+// contents are havoced and the clause is assumed with old() = the state before the havoc. Release: the clause is asserted
+// with old() = the state right after the matching acquire. A lookup made under one critical section is therefore worthless
+// in the next one.
+func (x *Exec) lockProtocol(st *State, in ssa.Instruction, acquire bool) {
+	if x.fc == nil || len(x.fc.LockProtocols) == 0 {
+		return
+	}
+	ci, ok := in.(ssa.CallInstruction)
+	if !ok || len(ci.Common().Args) == 0 {
+		return
+	}
+	name := ""
+	switch r := ci.Common().Args[0].(type) {
+	case *ssa.FreeVar:
+		name = r.Name()
+	case *ssa.Alloc:
+		name = r.Comment
+	}
+	if name == "" {
+		return
+	}
+	for _, lp := range x.fc.LockProtocols {
+		if lp.Mutex != name {
+			continue
+		}
+		if acquire {
+			pre := st.clone()
+			ctx := x.ctxFor(st, pre, nil)
+			x.havocModifies(st, ctx, &ECall{Fun: "contents", Args: []Expr{&EIdent{Name: lp.Var}}})
+			ctx2 := x.ctxFor(st, pre, nil)
+			st.assume(x.evalBool(ctx2, lp.Clause), "lock_protocol ["+lp.Clause.Label+"] assumed at acquire of "+name+" (other threads obey it)")
+			if x.lockSnap == nil {
+				x.lockSnap = map[*State]map[string]*State{}
+			}
+			if st.lockSnaps == nil {
+				st.lockSnaps = map[string]*State{}
+			}
+			st.lockSnaps[name] = st.clone()
+			x.externsUsed["lock_protocol "+name+" guards "+lp.Var+": assumed after every acquire (interference by the other goroutines running the same code), proved before every release"] = true
+			continue
+		}
+		snap := st.lockSnaps[name]
+		if snap == nil {
+			continue
+		}
+		ctx := x.ctxFor(st, snap, nil)
+		x.oblige(st, "guard", "lock_protocol."+lp.Clause.Label+"@"+name, x.evalBool(ctx, lp.Clause), lp.Clause.Text)
+	}
+}
